@@ -3,13 +3,39 @@ import Qfx.Drv.Util
 import Qfx.Drv.Val
 import Qfx.Drv.ValMon
 import Qfx.Drv.Sched
+import Qfx.Drv.SchedMon
+import Qfx.Drv.Sess
+import Qfx.Drv.SessMon
+import Qfx.Drv.Link
+import Qfx.Drv.Robust
+import Qfx.Drv.Dict
+import Qfx.Drv.DictMon
+import Qfx.Drv.Valid
+import Qfx.Drv.ValidMon
+import Qfx.Drv.Frame
+import Qfx.Drv.FrameMon
+import Qfx.Drv.Store
+import Qfx.Drv.StoreMon
+import Qfx.Drv.Crash
+import Qfx.Drv.CrashMon
+import Qfx.Drv.Conc
+import Qfx.Drv.ConcMon
 import Qfx.Drv.Codec
 import Qfx.Drv.CodecMon
 namespace Qfx.Drv
 
 def families : List (String × Family) :=
   [ ("val", valFamily), ("val-mon", valMonFamily)
-  , ("sched", schedFamily)
+  , ("sched", schedFamily), ("sched-mon", schedMonFamily)
+  , ("sess", sessFamily), ("sess-mon", sessMonFamily)
+  , ("link", linkFamily), ("link-mon", linkMonFamily)
+  , ("robust", robustFamily), ("robust-mon", robustMonFamily)
+  , ("dict", dictFamily), ("dict-mon", dictMonFamily)
+  , ("valid", validFamily), ("valid-mon", validMonFamily)
+  , ("frame", frameFamily), ("frame-mon", frameMonFamily)
+  , ("store", storeFamily), ("store-mon", storeMonFamily)
+  , ("crash", crashFamily), ("crash-mon", crashMonFamily)
+  , ("conc", concFamily), ("conc-mon", concMonFamily)
   , ("codec", codecFamily), ("codec-mon", codecMonFamily)
   ]
 
